@@ -57,6 +57,7 @@ pub fn primary(sim: &mut Sim, prop: &str, d: &Delivery) -> Option<Vec<NetflowPac
 /// Runs the model over this delivery and keeps the model cache in step.
 pub fn model_step(sim: &mut Sim, d: &Delivery, post: &CacheSnap) -> Walk {
     let allowed = sim.cfgs[d.p].allowed.clone();
+    let pre_taint = sim.models[d.p].tainted.clone();
     let w = walk(d.buf, &mut sim.models[d.p], &allowed, &sim.mcfg);
     for pk in &w.pkts {
         let (proto, sets) = match &pk.body {
@@ -74,18 +75,25 @@ pub fn model_step(sim: &mut Sim, d: &Delivery, post: &CacheSnap) -> Walk {
                 }
                 // listed structural defect: an IPFIX set with several template records
                 if proto == Proto::Ipfix && tpls.len() > 1 {
-                    for (id, _) in tpls {
-                        sim.models[d.p].tainted.insert((Proto::Ipfix, *id));
-                    }
                     sim.stats.probe("ipfix_multi_template_set");
                 }
             }
         }
     }
+    if std::env::var("NFSIM_DEBUG").is_ok() {
+        eprintln!("ev {} stop {:?} pkts {} tainted {:?} model ids {:?}", d.ev, w.stop, w.pkts.len(), sim.models[d.p].tainted, sim.models[d.p].ipfix.keys().collect::<Vec<_>>());
+    }
     if w.fully_known() {
         sim.stats.conformant_deliveries += 1;
     } else {
         resync(&mut sim.models[d.p], post);
+        // the walk may have lifted a taint on the strength of a template record the library
+        // never got to (it stops at the first undecodable set): never untaint on such deliveries
+        for t in pre_taint {
+            if sim.models[d.p].map(t.0).contains_key(&t.1) {
+                sim.models[d.p].tainted.insert(t);
+            }
+        }
     }
     w
 }
@@ -391,60 +399,47 @@ pub fn compare_decode(
             return rep;
         }
         let exp = expect_sets(d.buf, pk);
-        let first_unknown = match &pk.body {
-            MBody::Ipfix { sets, .. } => sets.iter().position(|s| matches!(s.kind, MSetKind::UnknownTpl { .. })),
-            _ => None,
-        };
-        let upto = first_unknown.unwrap_or(exp.len());
-        if fp.sets.len() < upto {
-            sim.find(
-                &format!("{}-sets-missing", prefix),
-                d.ev,
-                format!("packet at offset {}: {} sets expected before any undecodable one, {} returned", pk.start, upto, fp.sets.len()),
-            );
-            return rep;
-        }
-        if first_unknown.is_none() && fp.sets.len() != exp.len() {
-            sim.find(
-                &format!("{}-set-count", prefix),
-                d.ev,
-                format!("packet at offset {}: {} sets expected, {} returned", pk.start, exp.len(), fp.sets.len()),
-            );
-            return rep;
-        }
-        if let Some(fu) = first_unknown {
-            // C07 demands only that the undecodable set yields nothing. Whether later sets are
-            // still reported is a C05/C10 matter (listed finding when they are dropped).
-            if fp.sets.len() == fu && exp.len() > fu + 1 {
-                sim.find("KF-C05-sets-after-undecodable-set-dropped", d.ev, format!("message at offset {}: sets after the set with unknown template {} are not reported", pk.start, exp[fu].id));
-            }
-        }
         let sets_model = match &pk.body {
             MBody::V9 { sets, .. } | MBody::Ipfix { sets, .. } => sets,
             _ => unreachable!(),
         };
-        for k in 0..upto {
-            let (id, len, ref got) = fp.sets[k];
+        // Align the returned sets with the model's: a set with an unknown template must be
+        // absent (C07), a set whose real-side template is unreliable because of a listed finding
+        // (tainted) may be absent or present and is not judged, every other set must be there.
+        let mut gi = 0usize;
+        for k in 0..exp.len() {
             let e = &exp[k];
-            if id != e.id || len != e.len {
+            let unknown = matches!(sets_model[k].kind, MSetKind::UnknownTpl { .. });
+            let next_matches = fp.sets.get(gi).map(|(id, len, _)| *id == e.id && *len == e.len).unwrap_or(false);
+            if unknown {
+                // whether it is (wrongly) present is C07's judgement; here it is simply not expected
+                continue;
+            }
+            if sets_model[k].tainted {
+                sim.stats.probe("skipped_tainted_set");
+                if next_matches {
+                    gi += 1;
+                }
+                continue;
+            }
+            if !next_matches {
                 sim.find(
-                    &format!("{}-set-header-mismatch", prefix),
+                    &format!("{}-sets-missing", prefix),
                     d.ev,
-                    format!("set {} of packet at {}: expected id {} len {}, got id {} len {}", k, pk.start, e.id, e.len, id, len),
+                    format!(
+                        "packet at offset {}: set {} (id {}, {} bytes) is decodable with the templates this parser holds but is not among the returned sets (returned set {} is {:?})",
+                        pk.start,
+                        k,
+                        e.id,
+                        e.len,
+                        gi,
+                        fp.sets.get(gi).map(|x| (x.0, x.1))
+                    ),
                 );
                 return rep;
             }
-            let proto = if version == 9 { Proto::V9 } else { Proto::Ipfix };
-            let tid = match &sets_model[k].kind {
-                MSetKind::Data { tid, .. } | MSetKind::V9OData { tid, .. } => Some(*tid),
-                _ => None,
-            };
-            if let Some(t) = tid {
-                if sim.models[d.p].tainted.contains(&(proto, t)) {
-                    sim.stats.probe("skipped_tainted_set");
-                    continue;
-                }
-            }
+            let (id, _len, ref got) = fp.sets[gi];
+            gi += 1;
             rep.sets_checked += 1;
             if let MSetKind::Data { recs, .. } = &sets_model[k].kind {
                 rep.records_checked += recs.len() as u64;
@@ -462,8 +457,9 @@ pub fn compare_decode(
                 sim.stats.probe("set_without_expectation");
                 continue;
             }
-            let exp_s = format!("{:?}", e.correct.as_ref().or(e.defective.first().map(|x| &x.1)));
+            let exp_s = format!("{:?}", e.correct.as_ref().or(e.defective.first().map(|x| &x.1)).unwrap());
             let got_s = format!("{:?}", got);
+            let (exp_s, got_s) = around_first_diff(&exp_s, &got_s);
             sim.find(
                 &format!("{}-set-decode-mismatch", prefix),
                 d.ev,
@@ -478,8 +474,38 @@ pub fn compare_decode(
             );
             return rep;
         }
+        if gi != fp.sets.len() && !pk.has_unknown && !sets_model.iter().any(|s| s.tainted) {
+            sim.find(
+                &format!("{}-extra-sets", prefix),
+                d.ev,
+                format!("packet at offset {}: {} sets returned, the bytes hold {} sets", pk.start, fp.sets.len(), exp.len()),
+            );
+            return rep;
+        }
     }
     rep
+}
+
+/// Windows of both strings around their first difference.
+pub fn around_first_diff(a: &str, b: &str) -> (String, String) {
+    let ab = a.as_bytes();
+    let bb = b.as_bytes();
+    let mut i = 0;
+    while i < ab.len() && i < bb.len() && ab[i] == bb[i] {
+        i += 1;
+    }
+    let win = |s: &str| {
+        let mut st = i.saturating_sub(300);
+        while !s.is_char_boundary(st) {
+            st -= 1;
+        }
+        let mut en = (i + 300).min(s.len());
+        while !s.is_char_boundary(en) {
+            en -= 1;
+        }
+        format!("[{} chars total, showing {}..{}] {}", s.len(), st, en, &s[st..en])
+    };
+    (win(a), win(b))
 }
 
 pub fn trunc(s: &str, n: usize) -> String {
@@ -706,6 +732,7 @@ fn c06(sim: &mut Sim, d: &Delivery) -> u64 {
         }
         if model_before != sim.models[d.p] {
             sim.stats.probe("cache_changing_delivery");
+            sim.stats.nontrivial = true;
         }
     }
     // (5) independence from the partition into calls
@@ -746,7 +773,7 @@ fn c06(sim: &mut Sim, d: &Delivery) -> u64 {
     }
     if d.faults.iter().any(|f| f == "heal") {
         sim.stats.probe("heal_delivery");
-        if !w.fully_known() {
+        if !w.fully_known() && !w.has_tainted() {
             sim.find("C06-heal-not-decodable", d.ev, format!("after faults stopped and templates were refreshed, this delivery still does not decode: {:?}", w.stop));
         }
     }
@@ -912,7 +939,9 @@ fn c07(sim: &mut Sim, d: &Delivery) -> u64 {
     if d.faults.iter().any(|f| f == "heal" || f == "replay") {
         // recovery: once the template is there, the data decodes normally
         sim.stats.probe("recovery_delivery");
-        if !w.fully_known() {
+        if w.has_tainted() {
+            sim.stats.probe("recovery_not_judged_tainted");
+        } else if !w.fully_known() {
             sim.find("C07-no-recovery", d.ev, format!("templates were (re)delivered, yet this delivery is still not decodable: {:?}", w.stop));
         } else {
             for version in [9u16, 10] {
